@@ -112,6 +112,23 @@ def call(op, rs, params, seed):
     elif op == "combofilter":
         scr = rs.screen()
         st, r = outcome(filter_dataset_to_treatments_that_appear_in_at_least_one_combo, scr)
+    elif op in ("mergemin_holdout", "mergetb_holdout"):
+        # the prepare step's order: smooth first, split afterwards - the hold-out split is handed the very object the smoother returned
+        # (for a screen without observed plates that is the screen the smoother merged in place)
+        orig = rs.screen()
+        sm = OPS[op.split("_")[0]]((params[0],))
+        st, r = outcome(sm.smooth_plates, orig, rng)
+        if st == "ok":
+            scr = r
+            before = rs.project(scr)
+            t.update({"op": "holdout", "fn": params[1], "fd": params[2], "via": op, "via_params": list(params), "orig": rs.project(rs.screen())})
+            st, r = outcome(R.create_plate_balanced_holdout_set_among_masked_plates, scr, params[1] / params[2], rng)
+            if st == "ok":
+                t["test"] = rs.project(r[1])
+                r = r[0]
+                t["inp"] = before
+                t["out"] = rs.project(r)
+                return t, None
     elif op in ("holdout", "random_holdout"):
         scr = rs.screen()
         t["fn"], t["fd"] = params
@@ -148,6 +165,8 @@ def make_cases(ctx, rnd, tlc_inputs):
                   ("fixed", big, (rnd.randint(1, 4),)), ("optimal", big, ()), ("npl", ssp, (rnd.randint(1, 3),)),
                   ("mergemin", ssp, (rnd.randint(1, 6),)), ("mergetb", ssp, (rnd.randint(1, 3),)),
                   ("ensemble", ssp, (rnd.randint(1, 5), rnd.randint(1, 2), rnd.randint(1, 2))),
+                  (rnd.choice(["mergemin_holdout", "mergetb_holdout"]), RScreen([(r_[0], r_[1], r_[2], False) for r_ in ssp.rows]),
+                   (rnd.randint(2, 6),) + rnd.choice([(0, 1), (1, 1), (1, 2), (2, 5), (3, 4)])),
                   ("holdout", big, rnd.choice([(0, 1), (1, 1), (1, 2), (1, 4), (3, 4), (1, 8), (4, 5), (9, 10), (1, 3), (7, 10), (5, 6)])),
                   ("random_holdout", big, rnd.choice([(0, 1), (1, 1), (1, 2), (1, 4), (3, 8), (4, 5), (1, 3), (9, 10)]))]
     # plates that hold more than one sample (also with the same sample in the first and the last row): a merge smoother refuses them
@@ -380,12 +399,14 @@ def replay_retro(ctx, focus, rp):
     from harness.tracecheck import validate
     t = rp["trace"]
     # rebuild the input from its projection and call again with a few seeds
-    rows = [(r["s"], tuple(r["ts"]), r["pl"], r["obs"]) for r in t["inp"]]
+    rows = [(r["s"], tuple(r["ts"]), r["pl"], r["obs"]) for r in t.get("orig", t["inp"])]
     rs = RScreen(rows)
     params = tuple(x for x in ((t["fn"], t["fd"]) if t["op"] in ("holdout", "random_holdout") else (t["p1"], t["p2"], t["p3"])))
+    if t.get("via"):
+        params = tuple(t["via_params"])
     trs = []
     for k in range(8):
-        t2, err = call(t["op"], rs, params, k)
+        t2, err = call(t.get("via", t["op"]), rs, params, k)
         if t2:
             trs.append(t2)
     bad = validate(ctx, "TraceRetro", trs, decide="Decide", next_="TNext", init="TInit",
